@@ -38,3 +38,17 @@ def TObj(cls):
 
 def TIo(kind):
     return T('Io', kind)
+
+
+def TPat(inner):
+    """pattern-list element: EOF | TIMEOUT | inner"""
+    return T('Pat', inner)
+
+
+def TSymList(comps, scalar=False):
+    """symbolic list; comps = ((name, type), ...)"""
+    return T('SymList', tuple(comps), scalar)
+
+
+def TArray(elem):
+    return T('Array', elem)
